@@ -27,8 +27,15 @@ def make(idx, fsbox):
         n = i.store.get("__mdata_n__", 0) + 1
         i.store["__mdata_n__"] = n
         o = Obj(f"mdata{n}")
+        # the record is an instance of the real FileMetadata: any property the class defines (getter or setter) is interpreted
+        i.types[o.name] = "FileMetadata"
+        i.inline |= {f"FileMetadata.{p}" for p in idx.cls("FileMetadata").properties}
+        props = set(idx.cls("FileMetadata").properties)
         for f in ("named_file_name", "origin_path", "name_home", "file_path", "file_home", "file_name", "mark", "type", "manifest_path", "fingerprint"):
-            i.store[f"{o.name}.{f}"] = None
+            if f in props:
+                i.store[f"{o.name}._{f}"] = None  # a property: its backing field starts empty, reads and writes go through the accessors
+            else:
+                i.store[f"{o.name}.{f}"] = None
         i.store[f"{o.name}.time_string"] = f"T{n}"
         return o
 
@@ -189,6 +196,10 @@ def run(idx, rep, tier):
     if tier == "thorough" and msg is None:
         n2, msg = run_sequences(idx, 5, names=("n1",))
         n += n2
+    if msg is None:
+        # source file names that differ only in case are different source files
+        n3, msg = run_sequences(idx, 2, names=("n1",), srcs=("Data.csv", "data.csv"), contents=("A",))
+        n += n3
     rep.check(msg is None, "R1", "csvpath/managers/files/file_manager.py::named-files store sequences", msg or f"{n} operation sequences", "csvpath/managers/files/file_manager.py")
     rep.stats["table_rows"] = n
     rep.stats["exhaustive"] = True
@@ -196,6 +207,32 @@ def run(idx, rep, tier):
     r2(idx, rep)
     r3(idx, rep)
     K.guard_flags(idx, rep, "R3")
+    distribute(idx, rep, "R3")
+
+
+def distribute(idx, rep, rid):
+    """Registrar.distribute_update: the registrar is its own first listener — its metadata_update is the manifest write.  Every listener is
+    told, in order; and when the registrar's own update fails the failure reaches the caller (add_named_file must not return normally
+    after the manifest write failed: the name would silently keep serving the old version)"""
+    fi = idx.method("Registrar", "distribute_update")
+    rep.analysed(fi)
+    bad = None
+    for own_fails in (False, True):
+        told = []
+
+        def upd(i, c, r, a, k, own_fails=own_fails):
+            told.append(r.name if isinstance(r, Obj) else str(r))
+            if own_fails and told[-1] == "self":
+                raise Raised("OSError")
+
+        it = Interp(idx, types={"self": "Registrar"}, unknown_calls="residual", handlers={".metadata_update": upd, "self.metadata_update": upd})
+        ps = it.run_all(fi, args={"mdata": Obj("md")}, store={"self.listeners": [Obj("self"), Obj("l1"), Obj("l2")]})
+        for p in ps:
+            if not own_fails and (p.result[0] != "return" or told != ["self", "l1", "l2"]):
+                bad = bad or f"three listeners: told {told} ({p.result}); documented the registrar itself first, then every listener in order"
+            if own_fails and p.result[0] != "raise":
+                bad = bad or f"the registrar's own manifest write raises OSError and distribute_update {p.result[0]}s: the failure must reach the caller of add_named_file / add_named_paths"
+    rep.check(bad is None, rid, f"{fi.file}::Registrar.distribute_update tells every listener; its own failure propagates", bad or "", K.where(fi, fi.node))
 
 
 DESTRUCTIVE = {
